@@ -68,6 +68,15 @@ def configs(thorough: bool) -> List[Dict[str, Any]]:
             # card window and plain RAM: they decline every access, so nothing read or written through them may change
             tap["taps"] = [(0x4FFF8, 0x10), (0x41FF8, 0x10), (0xB8000, 0x8)]
             out.append(tap)
+        if ovl and not rom and not mirror and not ro and card is None:
+            one = dict(cfg)
+            one["ram_overlays"] = [(0x50000, 1)]          # overlays of exactly one byte: a 24-bit access can be centred on them
+            one["rom_overlays"] = [(0x5000F, 1)]
+            out.append(one)
+        if ro and not rom and not ovl and not mirror and card is None:
+            nest = dict(cfg)
+            nest["readonly"] = [(0x00000, 0x3FFFF), (0x02000, 0x0200F)]      # a read-only range nested inside a larger one (Rust image)
+            out.append(nest)
         if card and not rom and not ovl and not mirror and not ro:
             rem = dict(cfg)
             rem["card_removed"] = True       # the card is loaded and then taken out: the slot must behave as absent
